@@ -167,6 +167,27 @@ func knownWitnesses(r *hk.Run) {
 				[]opIn{{Kind: "rm", K: 0}}, []opIn{{Kind: "stat", K: 0}, {Kind: "fetch", K: 0}, {Kind: "enum", After: "", Limit: 1000}})
 		}},
 	}
+	// F-C14-4 (fixed): files enumerate failed when an entry listed by ReadDirNames had vanished by the
+	// time it was stat'ed (here: removed while the enumerate is stopped before the Stat of the blob file; the
+	// first Stat is the one of the hash-name directory)
+	{
+		res := witness("files", 0, p3, "vfs.Stat", 2, []opIn{{Kind: "recv", K: 0}}, opIn{Kind: "enum", After: "", Limit: 1000},
+			[]opIn{{Kind: "rm", K: 0}}, nil)
+		r.ImplOnly("gated-witness")
+		bad, out := false, ""
+		if res.h != nil {
+			for _, rc := range res.h.Recs {
+				if rc.In.Kind == "enum" {
+					out = rc.Out
+					bad = rc.Out != "refs"
+				}
+			}
+		}
+		r.Probe("F-C14-4", res.err == "" && bad, fmt.Sprintf("enumerate stopped between ReadDirNames and Stat while the blob is removed answers %q (err=%q)", out, res.err))
+		if res.err != "" {
+			r.Fail("harness:witness-failed:F-C14-4", res.err, "", "", nil)
+		}
+	}
 	for _, d := range defs {
 		res := d.run()
 		r.ImplOnly("gated-witness")
